@@ -6,6 +6,7 @@ package main
 //   c11 run x<json>   -> ok x<envelope json>  |  ( err parse|calc|validate|marshal )
 //   c11 types         -> ( x<schema id> ... )   every registered schema id
 //   c11 rematch x<pattern> x<text> -> 1 / 0   Go regexp (RE2) on a pattern text
+//   c11 leaf code|key x<text>      -> 1 / 0   the value type's own Validate()
 
 import (
 	"encoding/json"
@@ -13,6 +14,7 @@ import (
 	"sort"
 
 	"github.com/invopop/gobl"
+	"github.com/invopop/gobl/cbc"
 	"github.com/invopop/gobl/schema"
 )
 
@@ -44,6 +46,15 @@ func init() {
 				return []V{VErr("marshal")}
 			}
 			return []V{VS("ok"), VBytes(out)}
+		case "leaf":
+			// the type's own rule: cbc.Code(v).Validate() / cbc.Key(v).Validate()
+			switch a[1].Str() {
+			case "code":
+				return []V{VB(cbc.Code(a[2].Str()).Validate() == nil)}
+			case "key":
+				return []V{VB(cbc.Key(a[2].Str()).Validate() == nil)}
+			}
+			return []V{VErr("unknown-leaf")}
 		case "rematch":
 			// Go's regexp on the same pattern text (the engine the library's own validation uses)
 			re, err := regexp.Compile(a[1].Str())
